@@ -233,6 +233,30 @@ def gen_map(rng, hostile=0.0, chronological=True, mode=None, version=None, tshif
                  lambda: gen_colours(rng, hostile), lambda: gen_timing(rng, mode, hostile, 20000, chronological, tshift + 30000, integer_times)]
         for _ in range(rng.randint(1, 3)):
             secs.insert(rng.randint(1, len(secs)) if secs else 0, rng.choice(again)())
+    if rng.random() < 0.15:
+        # a [TimingPoints] / [HitObjects] / [Events] section cut in two with other sections in between: parser state that is
+        # pending at the cut (the open same-time group of timing lines, the last object's kind, ...) must survive the
+        # excursion exactly as it does inside one section; the second part may open with a line at the very time the first
+        # part ended on, carrying other values (seed C07-j)
+        heads = [i for i, sec in enumerate(secs) if sec and sec[0] in ("[TimingPoints]", "[HitObjects]", "[Events]") and len(sec) > 2]
+        if heads:
+            i = rng.choice(heads)
+            sec = secs[i]
+            k = rng.randint(2, len(sec) - 1)
+            first, second = sec[:k], [sec[0]] + sec[k:]
+            last = first[-1]
+            if sec[0] == "[TimingPoints]" and last.count(",") >= 1 and rng.random() < 0.7:
+                t = last.split(",")[0]
+                extra = rng.choice([f"{t},250,3,2,0,60,1,1", f"{t},-50,4,1,0,100,0,0", f"{t},500,4,1,0,100,1,0", f"{t},-200,4,2,1,30,0,1"])
+                second.insert(1, extra)
+            secs[i] = first
+            j = rng.randint(i + 1, len(secs))
+            if j == i + 1 and rng.random() < 0.7:
+                # make sure something that reaches a parser lies in between
+                secs.insert(j, rng.choice([["[HitObjects]", f"64,64,{500 + tshift},1,0,0:0:0:0:", f"128,64,{900 + tshift},1,0,0:0:0:0:"], ["[Colours]", "Combo1 : 1,2,3"],
+                                           ["[Events]", f"2,{100 + tshift},{900 + tshift}"], ["[General]", "StackLeniency: 0.5"]]))
+                j += 1
+            secs.insert(j, second)
     if rng.random() < 0.12:
         # sections that every provided decoder ignores, holding lines that would be records elsewhere
         ign = [rng.choice(["[Variables]", "[CatchTheBeat]", "[Mania]"])]
